@@ -87,7 +87,6 @@ def run(ctx, replay_case):
                 ctx.violations.append({"kind": "concrete", "signature": f"source:{src}",
                                        "what": f"decoding from a {src} source differs from decoding the same bytes from a counting iterator",
                                        "replay": {**c.replay("S"), "source": src}})
-    # lazy front-end generators pull at most one byte (one hex pair / one file byte) ahead as well
     ctx.stats.update({
         "evaluations": len(wf) + len(cuts) + len(sample) * len(SOURCES),
         "distinct_nontrivial": len({(c.tname, c.data) for c in cuts if len(c.data) > 0}) + len(wf),
